@@ -196,7 +196,27 @@ class ContractMixin:
             self.assumptions_used.add(f'assumed contract: {c.target}')
         else:
             self.contracts_used.add(c.target)
-        binds = self.bind_params(st, c.node, args, c.target)
+        bnode = c.node
+        if c.ghost:
+            # ghost parameters are not parameters of the real function: bind the call against the signature without them
+            import copy as _copy
+            bnode = _copy.copy(c.node)
+            bnode.args = _copy.copy(c.node.args)
+            pos_all = list(c.node.args.posonlyargs) + list(c.node.args.args)
+            dflt = [None] * (len(pos_all) - len(c.node.args.defaults)) + list(c.node.args.defaults)
+            keep = [(p_, d_) for p_, d_ in zip(pos_all, dflt) if p_.arg not in c.ghost]
+            bnode.args.posonlyargs = []
+            bnode.args.args = [p_ for p_, _ in keep]
+            ds = [d_ for _, d_ in keep]
+            while ds and ds[0] is None:
+                ds.pop(0)
+            if any(d_ is None for d_ in ds):
+                raise Unsupported(f'contract {c.target}: non-default parameter after a default one once ghosts are removed')
+            bnode.args.defaults = ds
+            kws = [(p_, d_) for p_, d_ in zip(c.node.args.kwonlyargs, c.node.args.kw_defaults) if p_.arg not in c.ghost]
+            bnode.args.kwonlyargs = [p_ for p_, _ in kws]
+            bnode.args.kw_defaults = [d_ for _, d_ in kws]
+        binds = self.bind_params(st, bnode, args, c.target)
         tmod = fi.module if fi is not None else None
         for b in binds:
             if isinstance(b, Out):
@@ -645,7 +665,11 @@ class ContractMixin:
         elif o.kind == 'raise':
             rcalls = c.calls('raises')
             if c.has('raises_nothing') and not rcalls:
-                ob = self.add_obligation('raises', st, FALSE, 'raises_nothing', None, detail='no exception may escape')
+                e = dict(env)
+                e['exc'] = o.val
+                self.run_lets(st, c, e, 'post', tolerant=True)
+                goal = self.known_sides(st, c, e, 'raises_nothing', FALSE, 'raises', o.val)
+                ob = self.add_obligation('raises', st, goal, 'raises_nothing', None, detail='no exception may escape')
                 ob.exc = o.val
                 ob.replay = {k.args[0].value: k.args[1].value for k in c.calls('replay')}.get('raises_nothing')
                 return
@@ -663,7 +687,8 @@ class ContractMixin:
                 if len(rest) > 1:
                     t = AND(t, self.spec_bool(st, self.sev(st, rest[1], e, c.module)))
                 alts.append(t)
-            ob = self.add_obligation('raises', st, OR(*alts), 'raises_only_declared', None,
+            goal = self.known_sides(st, c, e, 'raises_only_declared', OR(*alts), 'raises', o.val)
+            ob = self.add_obligation('raises', st, goal, 'raises_only_declared', None,
                                      detail=' | '.join(ast.unparse(cl) for cl in rcalls))
             ob.exc = o.val
             ob.replay = {k.args[0].value: k.args[1].value for k in c.calls('replay')}.get('raises_only_declared')
@@ -671,6 +696,22 @@ class ContractMixin:
                 self.check_frame(st, c, e)
         else:
             raise Unsupported(f'outcome {o.kind} at unit end')
+
+    def known_sides(self, st, c, e, label, goal, kind, exc=None):
+        """open known findings on an exceptional clause: the clause is proved on the complement of each finding's `when`;
+        the `when` side must still be refutable (else the entry is stale)"""
+        for kn in c.calls('known'):
+            if kn.args[0].value != label:
+                continue
+            when = self.spec_bool(st, self.sev(st, kn.args[2], e, c.module))
+            if self.feasible(st, when):
+                kob = self.add_obligation(kind, st, z3.Implies(when, goal), f'{label}@{kn.args[1].value}', None,
+                                          detail='known finding side: ' + ast.unparse(kn.args[2]))
+                kob.expect_refuted = True
+                kob.known_id = kn.args[1].value
+                kob.exc = exc
+            goal = z3.Implies(NOT(when), goal)
+        return goal
 
     def check_frame(self, st: St, c: Contract, env):
         pre = env['__old__']
